@@ -4,6 +4,7 @@ import (
 	"fmt"
 	"sort"
 	"strings"
+	"unicode/utf8"
 
 	"verif/internal/eng"
 	"verif/internal/ev"
@@ -140,6 +141,14 @@ func c16(c *ev.Ctx) {
 						cands = append(cands, model.Str(string(r)))
 					}
 					cands = append(cands, model.Str(""), model.Str("zz"), model.Str(v.S), model.Str(v.S+"x"), model.Str("́"))
+					// characters that are not in the string but begin with the same byte as one that is
+					for _, r := range v.S {
+						for _, d := range []rune{1, -1, 2, 16, 63} {
+							if n := r + d; n > 0x20 && utf8.ValidRune(n) && string(n)[0] == string(r)[0] && !strings.ContainsRune(v.S, n) {
+								cands = append(cands, model.Str(string(n)), model.Str(string(n)+string(n)))
+							}
+						}
+					}
 				}
 				for ki, k := range cands {
 					kl, ok := gen.LitOf(k)
